@@ -209,7 +209,7 @@ func (p *Prog) handledOnEdge(fn *ssa.Function, e Edge) bool {
 	start := e.To()
 	region := map[*ssa.BasicBlock]bool{}
 	for _, b := range fn.Blocks {
-		if b == start || start.Dominates(b) {
+		if b == start || blockDominates(start, b) {
 			region[b] = true
 		}
 	}
@@ -1696,7 +1696,7 @@ func (p *Prog) unreportedPath(fn *ssa.Function, e Edge, ev ssa.Value, cn string)
 	seen := map[st]bool{}
 	startHeads := map[*ssa.BasicBlock]bool{}
 	for _, b := range fn.Blocks {
-		if b.Dominates(e.From) && reaches(e.From, b) && b != e.From {
+		if blockDominates(b, e.From) && reaches(e.From, b) && b != e.From {
 			startHeads[b] = true // loop headers enclosing the test: reaching one again = next iteration
 		}
 	}
